@@ -634,6 +634,11 @@ int cmd_run(const Args &a) {
   long from = a.num("from", 0), stride = a.num("stride", 1), count = a.num("count", 1000);
   double cap = (double)a.num("time-cap", 3600);
   long audit_every = a.num("audit-every", 50);
+  // C18: every so often a case runs in a forked child, i.e. in a process in which the library has not yet done what the
+  // case does (the isolated-line oracle only ever assembles single lines in plain mode): state the library builds lazily
+  // on first use (padding tables, caches) is built while another caller is running
+  long fresh_every = a.num("fresh-every", gp.prop == "C18" ? 6 : 0);
+  long fresh_cases = 0;
   std::string hashes_out = a.get("hashes-out");
   g_print_plans = a.has("print-plans");
   std::vector<long> only;
@@ -670,6 +675,49 @@ int cmd_run(const Args &a) {
     }
     gp.run = run;
     g_cur_run = run;
+    if (fresh_every > 0 && only.empty() && i % fresh_every == fresh_every - 1) {
+      fflush(out);
+      int pfd[2];
+      if (pipe(pfd) == 0) {
+        pid_t pid = fork();
+        if (pid == 0) {
+          close(pfd[0]);
+          CaseOut cc;
+          run_case(gp, cc);
+          long rec[8] = {cc.evaluations, cc.nontrivial, 0, 0, (long)cc.st.ops, (long)cc.st.asm_checked, (long)cc.st.steps, (long)cc.st.switches};
+          int shown = 0;
+          for (const Found &f : cc.found) {
+            if (f.v.in_scope) rec[2]++;
+            else rec[3]++;
+            if (shown++ < 2) print_found(f, f.v.in_scope ? "V" : "O");
+          }
+          fflush(out);
+          if (write(pfd[1], rec, sizeof rec) != (ssize_t)sizeof rec) _exit(3);
+          _exit(0);
+        }
+        close(pfd[1]);
+        long rec[8] = {0};
+        ssize_t got = pid > 0 ? read(pfd[0], rec, sizeof rec) : -1;
+        close(pfd[0]);
+        int st = 0;
+        if (pid > 0) waitpid(pid, &st, 0);
+        g_cur_run = -1;
+        cases++;
+        fresh_cases++;
+        if (got == (ssize_t)sizeof rec) {
+          evals += rec[0];
+          nontriv += rec[1];
+          n_in += rec[2];
+          n_out += rec[3];
+          total.ops += (uint64_t)rec[4];
+          total.asm_checked += (uint64_t)rec[5];
+          total.steps += (uint64_t)rec[6];
+          total.switches += (uint64_t)rec[7];
+        }
+        // (a child that died of a sanitizer report has printed its D line; the driver takes it from there)
+        continue;
+      }
+    }
     CaseOut co;
     run_case(gp, co);
     g_cur_run = -1;
@@ -714,6 +762,7 @@ int cmd_run(const Args &a) {
   s.setb("time_capped", capped);
   s.set("wall_ms", (long)(wall * 1000));
   s.set("stats", stats_json(total));
+  if (fresh_every > 0) s.set("cases_in_fresh_processes", fresh_cases);
   s.set("abstract_states", coverage_states());
   s.set("state_op_outcome_triples", coverage_triples());
   s.set("edges_total", (long)sim_edges_total());
